@@ -3,6 +3,101 @@ namespace BPT.Rust
 open BPT Tree
 variable {K V : Type} [Keyed K]
 
+/-- the split point of a full leaf is interior and leaves both halves at least `cap/2` keys -/
+theorem leafSplitMid_bounds (cap n : Nat) (hcap : 4 ≤ cap) (hn : n = cap) :
+    0 < leafSplitMid cap n ∧ leafSplitMid cap n < n ∧ cap / 2 ≤ leafSplitMid cap n ∧ cap / 2 ≤ n - leafSplitMid cap n := by
+  unfold leafSplitMid minKeys
+  omega
+
+/-- Splitting a full ordered leaf at any interior point `mid` and inserting an absent key:
+    both halves ordered around the separator, entries preserved, plus the shape facts
+    (ids, links, sizes) the structural invariants need. -/
+theorem splitLeafAt_spec (l : Leaf K V) (lo hi : Option Int) (k : K) (v : V) (al : Allocs) (mid : Nat)
+    (ho : Ordered 0 l lo hi) (hk : InB lo hi (ord k))
+    (hnf : ∀ k', l.keys[lowerBound l.keys k]? = some k' → ord k' ≠ ord k)
+    (hmid_pos : 0 < mid) (hmid_lt : mid < l.keys.length) :
+    ∃ a b sep, splitLeafAt l k v al (lowerBound l.keys k) mid = some (.split a b sep none, { al with leaf := al.leaf.alloc.2 }) ∧
+      Ordered 0 a lo (some (ord sep)) ∧ Ordered 0 b (some (ord sep)) hi ∧ InB lo hi (ord sep) ∧
+      Leaf.entries a ++ Leaf.entries b = (insertAt l.keys (lowerBound l.keys k) k).zip (insertAt l.vals (lowerBound l.keys k) v) ∧
+      (a : Leaf K V).keys ≠ [] ∧
+      a.id = l.id ∧ a.next = al.leaf.alloc.1 ∧ (b : Leaf K V).id = al.leaf.alloc.1 ∧ b.next = l.next ∧
+      a.keys.length + b.keys.length = l.keys.length + 1 ∧ mid ≤ a.keys.length ∧ a.keys.length ≤ mid + 1 ∧
+      b.keys.head? = some sep := by
+  obtain ⟨hs, hl, hb⟩ := ho
+  have hi_le := lowerBound_le l.keys k
+  have hiv_le : lowerBound l.keys k ≤ l.vals.length := by omega
+  have hE := ksorted_insert_lb l.keys k hs hnf
+  have hEb : ∀ x ∈ insertAt l.keys (lowerBound l.keys k) k, InB lo hi (ord x) := by
+    intro x hx
+    rcases (mem_insertAt _ _ _ _).1 hx with rfl | hx
+    · exact hk
+    · exact hb x hx
+  have hEl : (insertAt l.keys (lowerBound l.keys k) k).length = (insertAt l.vals (lowerBound l.keys k) v).length := by
+    rw [length_insertAt _ _ _ hi_le, length_insertAt _ _ _ hiv_le, hl]
+  have hmid_le : mid ≤ l.keys.length := by omega
+  have hmidv : mid ≤ l.vals.length := by omega
+  unfold splitLeafAt
+  simp only [goesLeft, decide_eq_true_eq]
+  by_cases him : lowerBound l.keys k ≤ mid
+  · simp only [him, if_true]
+    have e1 := take_insertAt_le l.keys _ mid k him hmid_le
+    have e2 := drop_insertAt_le l.keys _ mid k him hmid_le
+    have e3 := take_insertAt_le l.vals _ mid v him hmidv
+    have e4 := drop_insertAt_le l.vals _ mid v him hmidv
+    cases hh : (l.keys.drop mid).head? with
+    | none =>
+      exfalso
+      have : l.keys.drop mid = [] := by simpa using hh
+      have := congrArg List.length this
+      simp at this; omega
+    | some sep =>
+      simp only []
+      refine ⟨_, _, sep, rfl, ?_⟩
+      have hsep : ((insertAt l.keys (lowerBound l.keys k) k).drop (mid+1)).head? = some sep := by rw [e2]; exact hh
+      have := leaf_cut_spec _ _ (mid+1) lo hi sep hE hEl hEb hsep l.id (al.leaf.alloc.1) (al.leaf.alloc.1) l.next
+      rw [e1, e2, e3, e4] at this
+      refine ⟨this.1, this.2.1, this.2.2, ?_, ?_, rfl, rfl, rfl, rfl, ?_, ?_, ?_, hh⟩
+      · simp only [Leaf.entries]
+        rw [← e1, ← e2, ← e3, ← e4]
+        exact entries_split _ _ _
+      · simp [insertAt]
+      · simp only [List.length_drop]
+        rw [length_insertAt _ _ _ (by simp; omega)]
+        simp only [List.length_take]; omega
+      · rw [length_insertAt _ _ _ (by simp; omega)]
+        simp only [List.length_take]; omega
+      · rw [length_insertAt _ _ _ (by simp; omega)]
+        simp only [List.length_take]; omega
+  · simp only [him, if_false]
+    have him' : mid < lowerBound l.keys k := by omega
+    have e1 := take_insertAt_gt l.keys _ mid k him' hi_le
+    have e2 := drop_insertAt_gt l.keys _ mid k him' hi_le
+    have e3 := take_insertAt_gt l.vals _ mid v him' hiv_le
+    have e4 := drop_insertAt_gt l.vals _ mid v him' hiv_le
+    cases hh : (insertAt (l.keys.drop mid) (lowerBound l.keys k - mid) k).head? with
+    | none =>
+      exfalso
+      have : insertAt (l.keys.drop mid) (lowerBound l.keys k - mid) k = [] := by simpa using hh
+      simp [insertAt] at this
+    | some sep =>
+      simp only []
+      refine ⟨_, _, sep, rfl, ?_⟩
+      have hsep : ((insertAt l.keys (lowerBound l.keys k) k).drop mid).head? = some sep := by rw [e2]; exact hh
+      have := leaf_cut_spec _ _ mid lo hi sep hE hEl hEb hsep l.id (al.leaf.alloc.1) (al.leaf.alloc.1) l.next
+      rw [e1, e2, e3, e4] at this
+      refine ⟨this.1, this.2.1, this.2.2, ?_, ?_, rfl, rfl, rfl, rfl, ?_, ?_, ?_, hh⟩
+      · simp only [Leaf.entries]
+        rw [← e1, ← e2, ← e3, ← e4]
+        exact entries_split _ _ _
+      · intro hnil
+        have := congrArg List.length hnil
+        simp only [List.length_take, List.length_nil] at this
+        omega
+      · rw [length_insertAt _ _ _ (by simp; omega)]
+        simp only [List.length_take, List.length_drop]; omega
+      · simp only [List.length_take]; omega
+      · simp only [List.length_take]; omega
+
 theorem insertLeafAbsent_spec (cap : Nat) (hcap : 4 ≤ cap) (l : Leaf K V) (lo hi : Option Int) (k : K) (v : V) (al : Allocs)
     (ho : Ordered 0 l lo hi) (hk : InB lo hi (ord k)) (hsz : l.keys.length ≤ cap)
     (hnf : ∀ k', l.keys[lowerBound l.keys k]? = some k' → ord k' ≠ ord k) :
@@ -24,65 +119,17 @@ theorem insertLeafAbsent_spec (cap : Nat) (hcap : 4 ≤ cap) (l : Leaf K V) (lo 
   have hEl : (insertAt l.keys (lowerBound l.keys k) k).length = (insertAt l.vals (lowerBound l.keys k) v).length := by
     rw [length_insertAt _ _ _ hi_le, length_insertAt _ _ _ hiv_le, hl]
   unfold insertLeafAbsent
+  simp only [isFull, minKeys, decide_eq_true_eq]
   by_cases hfull : l.keys.length < cap
-  · simp only [hfull, if_true]
+  · have hfull' : ¬ (l.keys.length ≥ cap) := by omega
+    simp only [hfull', not_false_eq_true, if_true]
     exact ⟨_, _, rfl, ⟨hE, hEl, hEb⟩, rfl⟩
   · have hn : l.keys.length = cap := by omega
     have hmin : ¬ (l.keys.length < cap / 2) := by omega
-    simp only [hfull, if_false, hmin]
-    -- the split point
-    generalize hmid : min (max ((l.keys.length + 1) / 2) (cap / 2)) (l.keys.length - cap / 2) = mid
-    have hmid_le : mid ≤ l.keys.length := by omega
-    have hmid_lt : mid < l.keys.length := by omega
-    have hmid_pos : 0 < mid := by omega
-    have hmidv : mid ≤ l.vals.length := by omega
-    by_cases him : lowerBound l.keys k ≤ mid
-    · simp only [him, if_true]
-      -- left = E.take (mid+1), right = E.drop (mid+1)
-      have e1 := take_insertAt_le l.keys _ mid k him hmid_le
-      have e2 := drop_insertAt_le l.keys _ mid k him hmid_le
-      have e3 := take_insertAt_le l.vals _ mid v him hmidv
-      have e4 := drop_insertAt_le l.vals _ mid v him hmidv
-      cases hh : (l.keys.drop mid).head? with
-      | none =>
-        exfalso
-        have : l.keys.drop mid = [] := by simpa using hh
-        have := congrArg List.length this
-        simp at this; omega
-      | some sep =>
-        simp only []
-        refine ⟨_, _, rfl, ?_⟩
-        have hsep : ((insertAt l.keys (lowerBound l.keys k) k).drop (mid+1)).head? = some sep := by rw [e2]; exact hh
-        have := leaf_cut_spec _ _ (mid+1) lo hi sep hE hEl hEb hsep l.id (al.leaf.alloc.1) (al.leaf.alloc.1) l.next
-        rw [e1, e2, e3, e4] at this
-        refine ⟨this.1, this.2.1, this.2.2, ?_, ?_⟩
-        · simp only [Leaf.entries]
-          rw [← e1, ← e2, ← e3, ← e4]
-          exact entries_split _ _ _
-        · simp [insertAt]
-    · simp only [him, if_false]
-      have him' : mid < lowerBound l.keys k := by omega
-      have e1 := take_insertAt_gt l.keys _ mid k him' hi_le
-      have e2 := drop_insertAt_gt l.keys _ mid k him' hi_le
-      have e3 := take_insertAt_gt l.vals _ mid v him' hiv_le
-      have e4 := drop_insertAt_gt l.vals _ mid v him' hiv_le
-      cases hh : (insertAt (l.keys.drop mid) (lowerBound l.keys k - mid) k).head? with
-      | none =>
-        exfalso
-        have : insertAt (l.keys.drop mid) (lowerBound l.keys k - mid) k = [] := by simpa using hh
-        simp [insertAt] at this
-      | some sep =>
-        simp only []
-        refine ⟨_, _, rfl, ?_⟩
-        have hsep : ((insertAt l.keys (lowerBound l.keys k) k).drop mid).head? = some sep := by rw [e2]; exact hh
-        have := leaf_cut_spec _ _ mid lo hi sep hE hEl hEb hsep l.id (al.leaf.alloc.1) (al.leaf.alloc.1) l.next
-        rw [e1, e2, e3, e4] at this
-        refine ⟨this.1, this.2.1, this.2.2, ?_, ?_⟩
-        · simp only [Leaf.entries]
-          rw [← e1, ← e2, ← e3, ← e4]
-          exact entries_split _ _ _
-        · intro hnil
-          have := congrArg List.length hnil
-          simp only [List.length_take, List.length_nil] at this
-          omega
+    have hfull' : l.keys.length ≥ cap := by omega
+    simp only [hfull', not_true_eq_false, if_false, hmin]
+    have hm := leafSplitMid_bounds cap l.keys.length hcap hn
+    obtain ⟨a, b, sep, he, h1, h2, h3, h4, h5, _⟩ :=
+      splitLeafAt_spec l lo hi k v al (leafSplitMid cap l.keys.length) ⟨hs, hl, hb⟩ hk hnf hm.1 hm.2.1
+    exact ⟨_, _, he, h1, h2, h3, h4, h5⟩
 end BPT.Rust
